@@ -1600,6 +1600,56 @@ fn many_parameters_probe<T: Sc>(rep: &mut Report) {
     }
 }
 
+/// C03 / C06: a sample with weight ZERO is masked - whatever the model or its derivative is there.  The
+/// derivative at the masked sample is huge (finite), the coefficient is huge (finite), their product is
+/// not representable: the weight has to reach the derivative before it meets the coefficients.
+fn masked_overflow_probe<T: Sc>(rep: &mut Report) {
+    let (big_d, big_y) = if T::NAME == "f64" { ((2.0f64).powi(600), (2.0f64).powi(500)) } else { ((2.0f64).powi(80), (2.0f64).powi(60)) };
+    let n = 5usize;
+    let masked = 2usize;
+    let wv = [1.0f64, 2.0, 0.0, 1.0, 0.5];
+    let dcol = [1.0f64, 2.0, big_d, -1.0, 3.0];
+    let entry = TableEntry {
+        a: vec![0],
+        phi: DMatrix::from_element(n, 1, T::one()),
+        dphi: vec![DMatrix::from_fn(n, 1, |i, _| T::of64(dcol[i]))],
+    };
+    let table = Arc::new(Table { n, m: 1, p: 1, entries: vec![entry] });
+    let w: Vec<T> = wv.iter().map(|&v| T::of64(v)).collect();
+    for (mrhs, par) in [(false, false), (true, false), (false, true), (true, true)] {
+        let s = if mrhs { 2 } else { 1 };
+        let y = DMatrix::from_fn(n, s, |i, q| T::of64(big_y * (1.0 + 0.25 * ((i + q) % 3) as f64)));
+        let flav = format!("masked overflow probe {} mrhs={} par={}", T::NAME, mrhs, par);
+        let det = |what: &str, dv: f64| json!({"flavour": flav, "what": what, "dev": dv});
+        let Ok(prob) = build_problem(TableModel::new(table.clone(), &[0]), mrhs, par, &y, Some(&w), None) else {
+            rep.tool_error(format!("cannot build {flav}"));
+            continue;
+        };
+        let o = observe(prob.as_ref());
+        let (Some(cm), Some(jm)) = (&o.cm, &o.jm) else {
+            rep.violation("C03", det("coefficients or Jacobian absent although every value is finite", 0.0));
+            continue;
+        };
+        // reference: c_q = sum w^2 y / sum w^2;  v = W D c;  J = -(v - u (u.v)) with u = w / |w|
+        let wn2: f64 = wv.iter().map(|v| v * v).sum();
+        let mut worst = 0.0f64;
+        for q in 0..s {
+            let c: f64 = (0..n).map(|i| wv[i] * wv[i] * y[(i, q)].to64()).sum::<f64>() / wn2;
+            worst = nmax(worst, (cm[(0, q)].to64() - c).abs() / c.abs());
+            let v: Vec<f64> = (0..n).map(|i| wv[i] * dcol[i] * c).collect();
+            let uv: f64 = (0..n).map(|i| wv[i] * v[i]).sum::<f64>() / wn2;
+            let scale = v.iter().fold(0.0f64, |m, x| m.max(x.abs()));
+            for i in 0..n {
+                let e = -(v[i] - wv[i] * uv);
+                worst = nmax(worst, (jm[(q * n + i, 0)].to64() - e).abs() / scale);
+            }
+        }
+        rep.check("C03", worst <= T::tol() * 10.0, worst, || det(&format!("Jacobian differs from -(I-P) W D C where sample {masked} has weight zero and a huge derivative"), worst));
+        rep.check("C06", worst <= T::tol() * 10.0, worst, || det("a sample with weight zero influences the Jacobian (its derivative is huge)", worst));
+        rep.count("masked_overflow_probes", 1);
+    }
+}
+
 /// the probes beyond the enumerated universe (also available on their own: subcommand `probes`)
 pub fn run_probes(total: &mut Report) {
     signed_zero_probe::<f64>(total);
@@ -1608,6 +1658,8 @@ pub fn run_probes(total: &mut Report) {
     nan_parameter_probe::<f32>(total);
     subnormal_probe::<f64>(total);
     subnormal_probe::<f32>(total);
+    masked_overflow_probe::<f64>(total);
+    masked_overflow_probe::<f32>(total);
     long_history_probe::<f64>(total);
     long_history_probe::<f32>(total);
     many_parameters_probe::<f64>(total);
